@@ -12,6 +12,7 @@ polls of a parked consumer included.
 -/
 import ScyllaVerif.Proofs.MergeChannel
 import ScyllaVerif.Model.MetaUpdate
+import ScyllaVerif.Model.RefreshFlow
 
 namespace ScyllaVerif.Props.C19
 open ScyllaVerif.MergeChannel
@@ -393,19 +394,71 @@ example :
 
 /-! ### the producer learns that the consumer is gone -/
 
-/-- `modify` observing `receiver_dropped` returns `SendError`, and `f` is not applied: slot and merged untouched. -/
-theorem sender_learns (s : State) (x : Nat) (hpc : s.spc = .modStart x) (hrd : s.receiverDropped = true) :
-    let s' := step s .sStep
-    s'.sends = s.sends ++ [false] ∧ s'.spc = .idle ∧ s'.slot = s.slot ∧ s'.merged = s.merged ∧
-      s'.permit = s.permit ∧ s'.wakes = s.wakes := by
+/-- In every reachable state in which the receiver has been dropped, a `modify` call (run to completion, whatever the
+consumer side is) returns `SendError` and does not apply `f`: slot, `merged`, permit and wake count are untouched. -/
+theorem sender_learns (acts : List Act) (x : Nat) :
+    let s := run init acts
+    s.rpc = .gone → s.spc = .idle →
+      (opMerge x s).sends = s.sends ++ [false] ∧ (opMerge x s).spc = .idle ∧ (opMerge x s).slot = s.slot ∧
+      (opMerge x s).merged = s.merged ∧ (opMerge x s).permit = s.permit ∧ (opMerge x s).wakes = s.wakes := by
+  intro s
+  have inv : MergeChannel.Inv s := inv_reachable acts
+  clear_value s
+  intro hr hs
+  have hrd : s.receiverDropped = true := inv.rdFlag.mpr hr
+  simp [opMerge, settleSender, step, sStep, hs, hrd]
+
+/-- The same at the level of the atomic step: in a reachable state, the load at line 106 observes the flag exactly
+when the receiver is gone, and then the call ends at once with `SendError`. -/
+theorem sender_learns_step (acts : List Act) (x : Nat) :
+    let s := run init acts
+    s.spc = .modStart x → s.rpc = .gone →
+      (step s .sStep).sends = s.sends ++ [false] ∧ (step s .sStep).spc = .idle ∧
+      (step s .sStep).slot = s.slot ∧ (step s .sStep).merged = s.merged := by
+  intro s
+  have inv : MergeChannel.Inv s := inv_reachable acts
+  clear_value s
+  intro hpc hr
+  have hrd : s.receiverDropped = true := inv.rdFlag.mpr hr
   simp [step, sStep, hpc, hrd]
 
-/-- ... and while the receiver is alive the same check lets `modify` proceed to apply `f` (no spurious `SendError`). -/
-theorem sender_proceeds_while_receiver_alive (s : State) (x : Nat) (hpc : s.spc = .modStart x)
-    (hrd : s.receiverDropped = false) :
-    (step s .sStep).spc = .modLock x ∧ (step (step s .sStep) .sStep).merged = s.merged ++ [x] ∧
-      (step (step s .sStep) .sStep).slot = applyPush s.slot x := by
-  simp [step, sStep, hpc, hrd]
+/-- ... and in every reachable state in which the receiver is alive, `modify` returns `Ok`, having applied `f`
+exactly once (no spurious `SendError`). -/
+theorem sender_proceeds_while_receiver_alive (acts : List Act) (x : Nat) :
+    let s := run init acts
+    s.rpc ≠ .gone → s.spc = .idle →
+      (opMerge x s).sends = s.sends ++ [true] ∧ (opMerge x s).spc = .idle ∧
+      (opMerge x s).merged = s.merged ++ [x] ∧ (opMerge x s).slot = applyPush s.slot x := by
+  intro s
+  have inv : MergeChannel.Inv s := inv_reachable acts
+  clear_value s
+  intro hr hs
+  have hrd : s.receiverDropped = false := by
+    cases h : s.receiverDropped with
+    | false => rfl
+    | true => exact absurd (inv.rdFlag.mp h) hr
+  unfold opMerge
+  simp only [step, hs, if_true]
+  simp only [settleSender, sStep, hrd]
+  simp
+  unfold notifyOne
+  split <;> simp
+
+/-- `Ok` results and applied updates correspond one to one, in every reachable state: the number of `modify` calls
+that returned `Ok`, plus one for a call that has applied `f` and not yet returned, is the number of merged updates.
+In particular between calls (`spc` idle or gone) `#Ok = #merged`: a `SendError` call never applied anything and an
+`Ok` call applied exactly once. -/
+theorem ok_results_match_merged (acts : List Act) :
+    let s := run init acts
+    okCount s.sends + applied s.spc = s.merged.length ∧
+    ((s.spc = .idle ∨ s.spc = .gone) → okCount s.sends = s.merged.length) := by
+  intro s
+  have h : SendsInv s := sendsInv_reachable acts
+  clear_value s
+  unfold SendsInv at h
+  refine ⟨h, ?_⟩
+  intro hq
+  rcases hq with hq | hq <;> rw [hq] at h <;> simpa [applied] using h
 
 private def Dead (s : State) : Prop :=
   s.receiverDropped = true ∧ (∀ x, s.spc ≠ .modLock x)
@@ -479,6 +532,13 @@ theorem after_receiver_drop_nothing_applied (s : State) (hr : s.receiverDropped 
 example :
     let s := run init [.callDropReceiver, .callModify 4, .sStep]
     s.sends = [false] ∧ s.merged = [] ∧ s.slot = none ∧ s.spc = .idle := by decide
+example :
+    let s := run init [.callModify 1, .sStep, .sStep, .sStep, .callDropReceiver]
+    s.rpc = .gone ∧ s.spc = .idle ∧ (opMerge 2 s).sends = [true, false] ∧ (opMerge 2 s).merged = [1] := by decide
+example :
+    let s := run init [.callModify 1, .sStep, .sStep, .sStep, .callRecv, .rStep]
+    s.rpc ≠ .gone ∧ s.spc = .idle ∧ (opMerge 2 s).sends = [true, true] ∧ (opMerge 2 s).merged = [1, 2] ∧
+      okCount (opMerge 2 s).sends = 2 := by decide
 
 /-! ### the poll-granularity operations driven by the harness are interleavings of the atomic steps -/
 
@@ -682,5 +742,237 @@ example :
     refreshIds slot = [] ∧ peersTag slot = some 6 ∧ kind slot = "full" := by decide
 
 end Update
+
+/-! ### a requested refresh is answered: requester → metadata worker → slot → cluster worker → reply -/
+section Refresh
+open ScyllaVerif.MetaUpdate ScyllaVerif.RefreshFlow
+
+private theorem refreshIds_mergeMetadata (slot : Option Update) (m : Meta) (p : Option Nat) :
+    refreshIds (mergeMetadata slot m p) = refreshIds slot ++ p.toList := by
+  have := merge_keeps_reply_channels slot (.metadata m p)
+  cases p <;> simpa [MetaUpdate.apply, Op.refresh] using this
+
+private theorem refreshIds_apply_strip (slot : Option Update) (op : Op) :
+    refreshIds (MetaUpdate.apply slot (stripRefresh op)) = refreshIds slot := by
+  have := merge_keeps_reply_channels slot (stripRefresh op)
+  cases op <;> simpa [stripRefresh, Op.refresh] using this
+
+private theorem refreshIds_none : refreshIds none = [] := rfl
+
+/-- Invariant of the refresh flow. -/
+private structure FlowInv (s : Flow) : Prop where
+  once : ∀ id, places s id = if id < s.next then 1 else 0
+  idle : s.busy = false → s.applying = []
+
+private theorem count_single (a id : Nat) : List.count id [a] = if a = id then 1 else 0 := by
+  by_cases h : a = id <;> simp [h]
+
+private theorem flowInv_step (s : Flow) (e : Ev) (h : FlowInv s) : FlowInv (RefreshFlow.step s e) := by
+  obtain ⟨once, idle⟩ := h
+  cases e with
+  | request =>
+    refine ⟨fun id => ?_, by simpa [RefreshFlow.step] using idle⟩
+    have := once id
+    simp only [places, RefreshFlow.step, List.count_append, count_single] at this ⊢
+    by_cases h1 : s.next = id
+    · subst h1; simp at this ⊢; omega
+    · have h3 : id < s.next + 1 ↔ id < s.next := by omega
+      simp only [h3, h1, if_false] at this ⊢
+      omega
+  | recvRequest =>
+    simp only [RefreshFlow.step]
+    split
+    · exact ⟨once, idle⟩
+    · split
+      · rename_i r rest hp hw
+        refine ⟨fun id => ?_, by simpa using idle⟩
+        have := once id
+        simp only [places, hp, hw, Option.toList_none, Option.toList_some, List.count_cons, List.count_nil] at this ⊢
+        omega
+      · exact ⟨once, idle⟩
+  | fetchOk m =>
+    simp only [RefreshFlow.step]
+    split
+    · exact ⟨once, idle⟩
+    · split
+      · refine ⟨fun id => ?_, by simpa using idle⟩
+        have := once id
+        simp only [places, List.count_append] at this ⊢
+        simp only [Option.toList_none, List.count_nil]
+        omega
+      · refine ⟨fun id => ?_, by simpa using idle⟩
+        have := once id
+        simp only [places, refreshIds_mergeMetadata, List.count_append] at this ⊢
+        simp only [Option.toList_none, List.count_nil]
+        omega
+  | fetchErrNoCc =>
+    simp only [RefreshFlow.step]
+    split
+    · exact ⟨once, idle⟩
+    · refine ⟨fun id => ?_, by simpa using idle⟩
+      have := once id
+      simp only [places, List.count_append] at this ⊢
+      simp only [Option.toList_none, List.count_nil]
+      omega
+  | fetchErrOnCc => exact ⟨once, idle⟩
+  | merge op =>
+    simp only [RefreshFlow.step]
+    split
+    · exact ⟨once, idle⟩
+    · refine ⟨fun id => ?_, by simpa using idle⟩
+      have := once id
+      simp only [places, refreshIds_apply_strip] at this ⊢
+      exact this
+  | consumerTake =>
+    simp only [RefreshFlow.step]
+    split
+    · exact ⟨once, idle⟩
+    · rename_i hc
+      split
+      · exact ⟨once, idle⟩
+      · rename_i u hu
+        have hb : s.busy = false := by
+          cases hbb : s.busy with
+          | false => rfl
+          | true => simp [hbb] at hc
+        refine ⟨fun id => ?_, by simp⟩
+        have := once id
+        simp only [places, hu, idle hb, List.count_nil] at this ⊢
+        simp only [refreshIds, List.count_nil] at this ⊢
+        omega
+  | consumerFinish =>
+    simp only [RefreshFlow.step]
+    split
+    · exact ⟨once, idle⟩
+    · refine ⟨fun id => ?_, by simp⟩
+      have := once id
+      simp only [places, List.count_append, List.count_nil] at this ⊢
+      omega
+  | consumerGone =>
+    simp only [RefreshFlow.step]
+    split
+    · exact ⟨once, idle⟩
+    · refine ⟨fun id => ?_, by simp⟩
+      have := once id
+      simp only [places, List.count_append, List.count_nil] at this ⊢
+      simp only [refreshIds_none, List.count_nil]
+      omega
+  | producerGone =>
+    simp only [RefreshFlow.step]
+    split
+    · exact ⟨once, idle⟩
+    · refine ⟨fun id => ?_, by simpa using idle⟩
+      have := once id
+      simp only [places, List.count_append] at this ⊢
+      simp only [Option.toList_none, List.count_nil]
+      omega
+
+private theorem flowInv_run (evs : List Ev) : FlowInv (RefreshFlow.run RefreshFlow.init evs) := by
+  have : ∀ (evs : List Ev) (s : Flow), FlowInv s → FlowInv (RefreshFlow.run s evs) := by
+    intro evs
+    induction evs with
+    | nil => intro s h; exact h
+    | cons e rest ih => intro s h; exact ih _ (flowInv_step s e h)
+  exact this evs RefreshFlow.init ⟨by intro id; simp [places, RefreshFlow.init, refreshIds], by simp [RefreshFlow.init]⟩
+
+/-- For every interleaving of requests, producer steps (request pick-up, successful / failed fetches, other merges),
+consumer steps (take, finish) and worker shutdowns: every refresh request ever issued is in EXACTLY ONE place -
+waiting in the request channel, pending in the metadata worker, in the slot, held by the running
+`apply_metadata_update`, answered `Ok`, answered `Err`, or dropped - and no id that was never issued is anywhere.
+So no reply channel is duplicated or silently forgotten by a merge, a take or an answer. -/
+theorem refresh_request_in_exactly_one_place (evs : List Ev) (id : Nat) :
+    places (RefreshFlow.run RefreshFlow.init evs) id =
+      if id < (RefreshFlow.run RefreshFlow.init evs).next then 1 else 0 :=
+  (flowInv_run evs).once id
+
+private theorem alive_flags (evs : List Ev) (h : evs.all isAlive = true) (s : Flow)
+    (hs : s.consumerGone = false ∧ s.producerGone = false ∧ s.dropped = []) :
+    (RefreshFlow.run s evs).consumerGone = false ∧ (RefreshFlow.run s evs).producerGone = false ∧
+      (RefreshFlow.run s evs).dropped = [] := by
+  induction evs generalizing s with
+  | nil => exact hs
+  | cons e rest ih =>
+    simp only [List.all_cons, Bool.and_eq_true] at h
+    obtain ⟨hc, hp, hd⟩ := hs
+    apply ih h.2
+    cases e with
+    | consumerGone => simp [isAlive] at h
+    | producerGone => simp [isAlive] at h
+    | request => simp [RefreshFlow.step, hc, hp, hd]
+    | recvRequest => simp only [RefreshFlow.step, hp]; split <;> (try split) <;> simp [hc, hp, hd]
+    | fetchOk m => simp [RefreshFlow.step, hc, hp, hd]
+    | fetchErrNoCc => simp [RefreshFlow.step, hc, hp, hd]
+    | fetchErrOnCc => simp [RefreshFlow.step, hc, hp, hd]
+    | merge op => simp [RefreshFlow.step, hc, hp, hd]
+    | consumerTake => simp only [RefreshFlow.step, hc]; split <;> (try split) <;> simp [hc, hp, hd]
+    | consumerFinish => simp only [RefreshFlow.step, hc]; split <;> simp [hc, hp, hd]
+
+/-- While both workers live, no reply channel is ever dropped: every issued request is waiting, pending, in the
+slot, being applied, or answered (exactly one of these). The only ways to lose a reply are the two shutdown events. -/
+theorem refresh_never_dropped_while_workers_alive (evs : List Ev) (h : evs.all isAlive = true) :
+    (RefreshFlow.run RefreshFlow.init evs).dropped = [] :=
+  (alive_flags evs h RefreshFlow.init ⟨rfl, rfl, rfl⟩).2.2
+
+/-- Answers are final: a step only appends to the lists of answered requests. -/
+theorem refresh_answers_only_grow (s : Flow) (e : Ev) :
+    s.answeredOk <+: (RefreshFlow.step s e).answeredOk ∧ s.answeredErr <+: (RefreshFlow.step s e).answeredErr := by
+  cases e with
+  | request => simp [RefreshFlow.step]
+  | recvRequest => simp only [RefreshFlow.step]; split <;> (try split) <;> simp
+  | fetchOk m => simp only [RefreshFlow.step]; split <;> (try split) <;> simp
+  | fetchErrNoCc => simp only [RefreshFlow.step]; split <;> simp
+  | fetchErrOnCc => simp [RefreshFlow.step]
+  | merge op => simp only [RefreshFlow.step]; split <;> simp
+  | consumerTake => simp only [RefreshFlow.step]; split <;> (try split) <;> simp
+  | consumerFinish => simp only [RefreshFlow.step]; split <;> simp
+  | consumerGone => simp only [RefreshFlow.step]; split <;> simp
+  | producerGone => simp only [RefreshFlow.step]; split <;> simp
+
+/-- Progress, success path: with both workers alive and the consumer between updates, once the fetch started for the
+pending request succeeds and the consumer takes the slot and finishes applying it, the pending request AND every
+request already in the slot are answered `Ok` - in order, each once - and nothing is left behind. -/
+theorem refresh_answered_after_fetch_and_apply (evs : List Ev) (h : evs.all isAlive = true) (m : Meta) :
+    let s := RefreshFlow.run RefreshFlow.init evs
+    s.busy = false →
+      let s' := RefreshFlow.run s [.fetchOk m, .consumerTake, .consumerFinish]
+      s'.answeredOk = s.answeredOk ++ (refreshIds s.slot ++ s.pending.toList) ∧
+      s'.pending = none ∧ s'.slot = none ∧ s'.applying = [] ∧ s'.dropped = [] := by
+  intro s
+  have hal := alive_flags evs h RefreshFlow.init ⟨rfl, rfl, rfl⟩
+  have hinv : FlowInv s := flowInv_run evs
+  have hal' : s.consumerGone = false ∧ s.producerGone = false ∧ s.dropped = [] := hal
+  clear_value s
+  intro hb
+  obtain ⟨hc, hp, hd⟩ := hal'
+  have hfill : ∃ u, mergeMetadata s.slot m s.pending = some u := by
+    have := merge_fills_slot s.slot (.metadata m s.pending)
+    simp only [MetaUpdate.apply] at this
+    exact Option.isSome_iff_exists.mp this
+  obtain ⟨u, hu⟩ := hfill
+  have hids : refreshIds (some u) = refreshIds s.slot ++ s.pending.toList := by
+    rw [← hu]; exact refreshIds_mergeMetadata _ _ _
+  simp [RefreshFlow.run, RefreshFlow.step, hc, hp, hd, hb, hu, hids]
+
+/-- Progress, failure path: a failed attempt to (re-)establish the control connection answers the pending request with
+the error at once; a failed fetch on a live control connection keeps it pending (it is retried). -/
+theorem refresh_failure_paths (s : Flow) (hp : s.producerGone = false) :
+    (RefreshFlow.step s .fetchErrNoCc).answeredErr = s.answeredErr ++ s.pending.toList ∧
+    (RefreshFlow.step s .fetchErrNoCc).pending = none ∧
+    (RefreshFlow.step s .fetchErrOnCc) = s := by
+  simp [RefreshFlow.step, hp]
+
+-- non-vacuity: three requests; the first fetch fails without a control connection (request 0 gets the error), the next
+-- two are merged into ONE update while the consumer is busy, and are both answered when it is applied.
+example :
+    let s := RefreshFlow.run RefreshFlow.init
+      [.request, .request, .request, .recvRequest, .fetchErrNoCc, .recvRequest, .fetchOk { peers := 1 }, .consumerTake,
+       .recvRequest, .fetchOk { peers := 2 }, .merge (.topology 3), .consumerFinish, .consumerTake, .consumerFinish]
+    s.answeredErr = [0] ∧ s.answeredOk = [1, 2] ∧ s.dropped = [] ∧ s.waiting = [] ∧ s.pending = none := by decide
+-- the shutdown paths are the only ones that drop a reply channel
+example :
+    let s := RefreshFlow.run RefreshFlow.init [.request, .recvRequest, .fetchOk { peers := 1 }, .consumerGone]
+    s.dropped = [0] ∧ places s 0 = 1 := by decide
+
+end Refresh
 
 end ScyllaVerif.Props.C19
